@@ -75,6 +75,24 @@ var typeNames = []string{"S1", "S2", "S3", "*S1", "*S2", "*S3", "N1", "N2", "cha
 // concrete lists the types a value can be made of.
 var concreteNames = []string{"S1", "S2", "S3", "*S1", "*S2", "*S3", "N1", "N2", "chan", "L1", "M1", "Fn"}
 
+// nillable says whether the concrete type has a typed nil, which is a value
+// like any other for the injector.
+func nillable(name string) bool {
+	switch universe[name].Kind() {
+	case reflect.Ptr, reflect.Chan, reflect.Slice, reflect.Map, reflect.Func:
+		return true
+	}
+	return false
+}
+
+// mkValueNil is mkValue, or the typed nil of the type.
+func mkValueNil(name string, id int, isNil bool) reflect.Value {
+	if isNil && nillable(name) {
+		return reflect.Zero(universe[name])
+	}
+	return mkValue(name, id)
+}
+
 // mkValue makes a fresh value of a concrete type carrying the identity id.
 func mkValue(name string, id int) reflect.Value {
 	switch name {
@@ -143,6 +161,12 @@ func same(a, b reflect.Value) bool {
 			return a.Pointer() == b.Pointer()
 		}
 		return false
+	}
+	switch a.Kind() {
+	case reflect.Ptr, reflect.Chan, reflect.Map, reflect.Slice, reflect.Func:
+		if a.IsNil() || b.IsNil() {
+			return a.IsNil() && b.IsNil()
+		}
 	}
 	switch a.Kind() {
 	case reflect.Ptr, reflect.Chan, reflect.Map:
